@@ -684,7 +684,16 @@ def marshal(compoundSignature, variableList,
         variableList = [getattr(variableList, attr_name)
                         for attr_name in order]
 
-    for ct, var in zip(genCompleteTypes(compoundSignature), variableList):
+    variables = iter(variableList)
+    exhausted = object()
+
+    for ct in genCompleteTypes(compoundSignature):
+        var = next(variables, exhausted)
+
+        if var is exhausted:
+            raise MarshallingError(
+                'Too few values for signature "%s"' % (compoundSignature,))
+
         tcode = ct[0]
         padding = pad[tcode](startByte)
 
@@ -698,6 +707,12 @@ def marshal(compoundSignature, variableList,
         startByte += nbytes
 
         chunks.extend(vchunks)
+
+    if next(variables, exhausted) is not exhausted:
+        # zip() used to drop surplus values silently (and, above, surplus
+        # types): the encoded body then did not match its signature
+        raise MarshallingError(
+            'Too many values for signature "%s"' % (compoundSignature,))
 
     return startByte - bstart, chunks
 
